@@ -274,11 +274,14 @@ def _unknown(chk: Check) -> None:
         src = d.param_names()[1]
         binds = [n for n in walk_no_nested(d.node) if isinstance(n, ast.Assign)
                  and attr_path(n.targets[0]) == (arg.id,)]
-        complete = bool(binds) and all(
-            (isinstance(b.value, ast.Name) and b.value.id == src) or
-            (isinstance(b.value, ast.Call) and attr_path(b.value.func) == (src, "read") and not b.value.args) or
-            (isinstance(b.value, ast.Constant) and b.value.value is None)
-            for b in binds)
+        def whole(v: ast.AST) -> bool:
+            # the parameter itself, everything read from it, a placeholder, or a choice of those
+            if isinstance(v, ast.IfExp):
+                return whole(v.body) and whole(v.orelse)
+            return (isinstance(v, ast.Name) and v.id == src) or \
+                (isinstance(v, ast.Call) and attr_path(v.func) == (src, "read") and not v.args) or \
+                (isinstance(v, ast.Constant) and v.value is None)
+        complete = bool(binds) and all(whole(b.value) for b in binds)
         # and the stream handed to _decode_tree is a fresh BytesIO over that variable
         fresh = all(isinstance(c.args[0], ast.Call) and (dotted(c.args[0].func) or ("",))[-1] == "BytesIO"
                     and attr_path(c.args[0].args[0]) == (arg.id,) for c in calls if c.args)
